@@ -70,6 +70,13 @@ claim("C12", "must-NOT-gate analysis of every raw-write chain (same call-string 
       "Decides that no level gate stands between a logger's Write (or the worker's raw branch) and any reference's Write, that each reference receives the bytes exactly once and unchanged, that the caller's slice is never retained without a copy, that the handle reports len(b), is get-or-create, and is bound only after a successful look-up (else Refresh fails). Ordering among concurrent writers is not decided.",
       NOTE_COMMON, "DESIGN.md §4 C12")
 
+claim("C02", "binding-discipline rules on Refresh: must-store loop on the success path (dominance), return-shape classification of the matcher closure, who-may-write, look-up-before-store with an error branch",
+      "Decides that every successful Refresh rebinds every registered tag unconditionally with the matcher's result for its own name, that the matcher can only return a configured-table hit, the configured root (built-in logger unless 'root' is configured) or a recursive result, that bindings have no other writers, that duplicate tags and the three invalid tag configurations raise errors. The longest-prefix string algorithm and map-order independence are statements about string values and are not decided.",
+      NOTE_COMMON, "DESIGN.md §4 C02")
+claim("C16", "lifecycle typestate of the bindings (nil-test dominance on every hot-path read, unbind loops post-dominating Destroy's initialised edge), once-guard dominance in Refresh, panic reachability, must-initialise rule for invoked interface fields",
+      "Decides per operation that logging cannot dereference an unbound binding (fallback to the built-in logger), that Destroy is idempotent, unbinds everything and clears its state on every path, that a second Refresh is rejected before any effect, that registration panics iff live, that no explicit panic/exit is on the log path and that every interface field invoked unguarded is initialised by every construction path. Full histories up to length 8 are not enumerated.",
+      NOTE_COMMON, "DESIGN.md §4 C16")
+
 PENDING_REASON = "check not built yet in this commit (static rule planned in DESIGN.md section 4); no claim is made until the rule exists and has been validated both ways"
 
 def main():
